@@ -322,9 +322,9 @@ func (a *List) M__iadd__(other Object) (Object, error) {
 func (l *List) M__mul__(other Object) (Object, error) {
 	if b, ok := convertToInt(other); ok {
 		m := len(l.Items)
-		n := int(b) * m
-		if n < 0 {
-			n = 0
+		n, err := repeatLength(m, b)
+		if err != nil {
+			return nil, err
 		}
 		newList := NewListSized(n)
 		for i := 0; i < n; i += m {
